@@ -207,4 +207,8 @@ def main():
 
 
 if __name__ == "__main__":
-    main()
+    try:
+        main()
+    finally:
+        # the harness binaries were last built against a mutated /repo: rebuild them from the restored tree
+        subprocess.run("bash /verif/tools/setup.sh >/dev/null 2>&1", shell=True)
